@@ -173,6 +173,7 @@ _SIGS = {
     "shim_big_sort": (c_int, [c_long, c_int, c_int, c_int, c_char_p, c_size_t]),
     "shim_array_ints": (c_long, [P, c_void_p, c_long]),
     "shim_tree_rawhash": (c_uint64, [P]),
+    "ledger_set_packed": (None, [c_int]),
     "shim_set_errno": (None, [c_int]), "shim_get_errno": (c_int, []),
     "shim_get_pointer_errno": (P, [P, c_char_p, c_int, c_int]),
     "shim_members_named_by_value": (c_long, [P]),
